@@ -218,6 +218,12 @@ def dot_product_attention(
     if len(query_shape) > 4:
       def reshape_4d(x):
         return jnp.reshape(x, (math.prod(x.shape[:-3]), *x.shape[-3:]))
+      def expand_batch(x):
+        # bias and mask may broadcast over (some of) the batch dimensions
+        if x is None:
+          return None
+        return jnp.broadcast_to(x, (*query_shape[:-3], *x.shape[-3:]))
+      bias, mask = expand_batch(bias), expand_batch(mask)
       query, key, value, bias, mask = jax.tree.map(
         reshape_4d, (query, key, value, bias, mask))
     if mask is not None:
